@@ -63,8 +63,8 @@ func genPartition(t *rapid.T, tb gen.Table) Partition {
 	}
 	p.SerAfter = make([][]int, p.NServers)
 	for s := 0; s < p.NServers; s++ {
-		if count[s] > 1 && rapid.IntRange(0, 2).Draw(t, "hasser") == 0 {
-			k := rapid.IntRange(1, 3).Draw(t, "nser")
+		if count[s] > 1 && rapid.Bool().Draw(t, "hasser") {
+			k := rapid.SampledFrom([]int{1, 2, 3, 5, 8}).Draw(t, "nser")
 			var pts []int
 			for j := 0; j < k; j++ {
 				pts = append(pts, rapid.IntRange(1, count[s]).Draw(t, "serpt"))
@@ -380,7 +380,7 @@ func clipLines(c maprCase) []string {
 	return out
 }
 
-const ruleText = "table of 1..300 log lines (default / generickv / csv format; 1-2 group keys with 1-5 values, 1-3 numeric keys, optional text key) x query (select of plain fields and count/sum/min/max/avg/last/len, from, where, set with functions, group by 1-2 keys or default, order/rorder, limit) x partition (1-4 servers x 1-3 files, 0-3 partial-result transmissions per server); oracle (1) metamorphic: result == result of the same lines on one server in one file; (2) on clean tables: result == central evaluation by the reference model (multiset of rows, numeric tolerance 2e-6, valid top-k under limit, monotone order keys, last/len any group value); non-trivial = >=2 partitions contribute to a common group and a numeric aggregation is selected; distinct by full case"
+const ruleText = "table of 1..300 log lines (default / generickv / csv format; 1-2 group keys with 1-5 values, 1-3 numeric keys, optional text key) x query (select of plain fields and count/sum/min/max/avg/last/len, from, where, set with functions, group by 1-2 keys or default, order/rorder, limit) x partition (1-4 servers x 1-3 files, 0-8 partial-result transmissions per server); oracle (1) metamorphic: result == result of the same lines on one server in one file; (2) on clean tables: result == central evaluation by the reference model (multiset of rows, numeric tolerance 2e-6, valid top-k under limit, monotone order keys, last/len any group value); non-trivial = >=2 partitions contribute to a common group and a numeric aggregation is selected; distinct by full case"
 
 func sample(c maprCase) interface{} {
 	q := c.Q
